@@ -274,7 +274,9 @@ def _node(spec, tree):
             if s.ctor_err or s.und_T:
                 return s
         align = tree.get("align") or subs[0].align
-        if any(s.align != align for s in subs):
+        # a block with a single crossing (a CrossBlock) has nothing to align by itself: its default alignment
+        # does not clash with the alignment given to the Merge
+        if any(s.align != align and not (s.align == "equal" and len(s.crossings) <= 1) for s in subs):
             return _err("Merge", "Blocks have different alignments")
         design, raw, inherited, und = [], [], [], None
         for s in subs:
